@@ -15,6 +15,7 @@ import PoetryVerif.Proofs.VRangeSpec
 import PoetryVerif.Proofs.VRangeSpecFinal
 import PoetryVerif.Proofs.VRangeSpecSet
 import PoetryVerif.Proofs.VRangeFinalSet
+import PoetryVerif.Proofs.VRangeSetAt
 import PoetryVerif.Proofs.VRangeDiff
 
 set_option linter.unusedSimpArgs false
@@ -553,6 +554,76 @@ example : (∀ c ∈ exSet, ClauseOk c.op c.lit ∧ ((c.op = .eqStar ∨ c.op = 
   rcases hc with rfl | rfl | rfl | rfl <;>
     exact ⟨⟨by decide, fun _ _ => by decide, fun _ => by decide⟩, fun _ => by decide⟩
 
+/-- the inclusive lower ends / inclusive upper ends of the ranges a set's clauses build -/
+def setLoI (s : List Clause) : List Version := s.flatMap (fun c => clauseLoI c.op c.lit)
+def setHiI (s : List Clause) : List Version := s.flatMap (fun c => clauseHiI c.op c.lit)
+
+/-- **comma-joined sets WITH `!=` / `!=V.*` clauses, without any regularity of the ends among themselves**: ordered
+comparisons, `~=`, `==V.*`, `!=V`, `!=V.*` (no `==` clause, no local label, wildcard literals final), on every
+candidate that is regular for each literal — the "exact-literal" / "other-release" guard.  The literals may be
+siblings of each other (`>1.0, !=1.0.post1, <2`; `>=1.2, !=1.2.*`).  One static side condition: no inclusive lower
+end equals an inclusive upper end (`NoPoint`: `>=V, <=V` would collapse a range to a `Version` member; every other
+intersection of ranges is a range).  `parse_constraint`'s left-to-right `intersect` — pairwise intersections, the
+merge walk of `VersionUnion.intersect`, `VersionUnion.of` on the collected parts — is defined at every step, keeps a
+well-formed (sorted, separated) union of range members, and its member-by-member membership (what
+`VersionUnion.allows` computes but for its `excludes_single_version` shortcut; the real `allows` when the result is
+not a union) equals the reference conjunction. -/
+theorem neq_set_membership_eq_ref (first : Clause) (rest : List Clause)
+    (hok : ∀ c ∈ first :: rest, ClauseOk c.op c.lit ∧ ((c.op = .eqStar ∨ c.op = .neStar) → c.lit.isFinal = true) ∧
+      c.op ≠ .eq ∧ c.lit.loc = none)
+    (hnp : NoPoint (setLoI (first :: rest)) (setHiI (first :: rest)))
+    (v : Version) (hv : v.wf = true) (hreg : ∀ c ∈ first :: rest, Reg1 v c.lit) :
+    ∃ r, setVC (first :: rest) = .ok r ∧ r.allowsPlain v = contains (first :: rest) v ∧
+      (r.notUnion → r.allows v = .ok (contains (first :: rest) v)) := by
+  have hok' : ∀ c ∈ first :: rest, ClauseOk' c.op c.lit := fun c hc =>
+    ⟨(hok c hc).1.1, (hok c hc).1.2.1, (hok c hc).1.2.2, (hok c hc).2.1⟩
+  have one : ∀ d ∈ first :: rest, ∃ c, clauseVC d.op d.lit = .ok c ∧
+      c.PInv (setLoI (first :: rest)) (setHiI (first :: rest)) v ∧ c.allowsPlain v = d.contains v := by
+    intro d hd
+    obtain ⟨c, hc, hinv⟩ := clauseVC_at (setLoI (first :: rest)) (setHiI (first :: rest)) d.op d.lit (hok' d hd)
+      (hok d hd).2.2.1 (hok d hd).2.2.2 v (hreg d hd)
+      (fun e he => List.mem_flatMap.2 ⟨d, hd, he⟩) (fun e he => List.mem_flatMap.2 ⟨d, hd, he⟩)
+    refine ⟨c, hc, hinv, ?_⟩
+    -- the single-clause theorems give the real `allows`; it is the member-by-member answer
+    have hplain := clause_allows_plain d.op d.lit (hok d hd).1.1 (hok d hd).2.2.2 (hok d hd).2.1 c hc v
+    have href : c.allows v = .ok (d.contains v) := by
+      by_cases h1 : d.op = .eqStar
+      · obtain ⟨y, hy, ay⟩ := wildcard_membership_eq_ref d.lit v (hok d hd).1.1 ((hok d hd).2.1 (Or.inl h1)) hv
+        rw [h1] at hc; rw [hc] at hy; cases hy
+        cases d; simp only at h1; subst h1; exact ay
+      · by_cases h2 : d.op = .neStar
+        · obtain ⟨y, hy, ay⟩ := wildcard_ne_membership_eq_ref d.lit v (hok d hd).1.1 ((hok d hd).2.1 (Or.inr h2)) hv
+          rw [h2] at hc; rw [hc] at hy; cases hy
+          cases d; simp only at h2; subst h2; exact ay
+        · obtain ⟨y, hy, ay⟩ := clause_membership_eq_ref d.op d.lit v (hok d hd).1 ⟨h1, h2⟩ hv (hreg d hd)
+          rw [hc] at hy; cases hy; exact ay
+    rw [hplain] at href
+    injection href
+  obtain ⟨cf, hcf, hfi, hfs⟩ := one first (by simp)
+  obtain ⟨res, h1, h2, h3⟩ := foldClauses_at hnp v hv rest cf hfi (fun d hd => one d (by simp [hd]))
+  have hsem : res.allowsPlain v = contains (first :: rest) v := by
+    rw [h3, hfs]; simp [contains]
+  refine ⟨res, by simp only [setVC, hcf, bind, Except.bind]; exact h1, hsem, fun hnu => ?_⟩
+  rw [VC.allows_of_notUnion res v hnu, hsem]
+
+/-- the hypotheses are satisfiable: `>1.0, !=1.0.post1, <2` — literals that are siblings of each other, so no
+`RegB` — on the candidate `1.5`, regular for each literal (another release) and admitted -/
+example : let s : List Clause := [⟨.gt, mk' 0 [1, 0] none none none none⟩,
+      ⟨.ne, mk' 0 [1, 0] none (some ⟨.post, 1⟩) none none⟩, ⟨.lt, mk' 0 [2] none none none none⟩]
+    NoPoint (setLoI s) (setHiI s) ∧ (∀ c ∈ s, Reg1 (mk' 0 [1, 5] none none none none) c.lit) ∧
+    contains s (mk' 0 [1, 5] none none none none) = true ∧
+    ¬ Reg1 (mk' 0 [1, 0] none (some ⟨.post, 1⟩) none none) (mk' 0 [1, 0] none none none none) := by
+  intro s
+  refine ⟨?_, ?_, by decide, ?_⟩
+  · intro m hm M hM
+    simp [s, setHiI, clauseHiI] at hM
+  · intro c hc
+    simp only [s, List.mem_cons, List.mem_nil_iff, or_false] at hc
+    rcases hc with rfl | rfl | rfl <;> exact Or.inr (by decide)
+  · rintro (h | h)
+    · exact absurd ((vk_eq_iff _ _).1 h) (by decide)
+    · exact h (by decide)
+
 /-- **the guard, for sets without `!=` / `!=V.*`, with no residual hypothesis**: every literal is a final release
 (any candidate), or the candidate is regular for every literal (equal to it or of another release).  The complement
 is the class `sibling-of-another-literal` (`counterexample_sibling_of_another_literal`). -/
@@ -571,12 +642,14 @@ theorem guarded_range_set_membership_eq_ref (first : Clause) (rest : List Clause
 guard.  Proved with no residual hypothesis: sets of any length without `!=` / `!=V.*` (ordered comparisons, `==`,
 `~=`, `==V.*`) — all literals final on EVERY candidate (`final_set_membership_eq_ref`), or any literals on
 candidates regular for each literal (`range_set_membership_eq_ref`); together
-`guarded_range_set_membership_eq_ref`.  Proved under `RegB` (range ends mutually regular, no local label):
-sets with `!=` / `!=V.*` (`regular_set_membership_eq_ref`).  Single clauses: `clause_membership_eq_ref`,
+`guarded_range_set_membership_eq_ref`.  Sets WITH `!=` / `!=V.*`: on candidates regular for each literal, no `==` clause, no local label, no
+inclusive lower end equal to an inclusive upper end, member-by-member membership (`neq_set_membership_eq_ref` — no
+regularity between the literals); against the real `allows` under `RegB` (`regular_set_membership_eq_ref`).  Single clauses: `clause_membership_eq_ref`,
 `final_literal_membership_eq_ref`, wildcards.  False as stated (the third disjunct of `InDomain` admits a candidate
 equal to one literal and sibling of another): `counterexample_sibling_of_another_literal`; the check's known classes
-"sibling-of-another-literal", "local-min-intersect".  Not proved: sets with a `!=` / `!=V.*` clause whose range ends
-share a release without being equal (`>=1.2, !=1.2.*`), on candidates regular for the literals. -/
+"sibling-of-another-literal", "local-min-intersect".  Not proved: for sets with `!=` outside `RegB`, that
+`VersionUnion.allows`'s `excludes_single_version` shortcut does not raise on the resulting union (the member-by-member
+answer is proved); `==` clauses together with `!=` clauses outside `RegB`. -/
 def membership_eq_ref_full_statement : Prop :=
   ∀ (s : List Clause) (v : Version), (∀ c ∈ s, ClauseOk c.op c.lit) → v.wf = true → InDomain s v →
     ∃ c, setVC s = .ok c ∧ c.allows v = .ok (contains s v)
